@@ -16,6 +16,7 @@ TInit ==
   /\ lock = "free" /\ outClosed = FALSE /\ inClosed = FALSE /\ wire = <<>>
   /\ rets = [p \in Procs |-> <<>>] /\ peer = <<>> /\ avail = 0 /\ failArmed = FALSE /\ dl = "none" /\ broken = FALSE
   /\ sv = [phase |-> "init", reason |-> "none", owner |-> "none", pending |-> 0]
+  /\ sh = [got |-> "none", stale |-> "no"]
 
 ProgOf(r, p) == IF \E i \in 1..Len(r.progs) : r.progs[i].p = p
                 THEN r.progs[CHOOSE i \in 1..Len(r.progs) : r.progs[i].p = p].calls
@@ -26,7 +27,7 @@ TrReset ==
   /\ peer' = Trace[l].script \o <<"eof">>
   /\ sv' = [sv EXCEPT !.phase = "idle"]
   /\ failArmed' = Trace[l].failclose
-  /\ UNCHANGED <<cur, lock, outClosed, inClosed, wire, rets, avail, dl, broken>>
+  /\ UNCHANGED <<cur, lock, outClosed, inClosed, wire, rets, avail, dl, broken, sh>>
 
 TrCall == IsEv("call") /\ Begin(Trace[l].p) /\ cur'[Trace[l].p].k = Trace[l].k
 TrRet ==
@@ -84,18 +85,21 @@ TrParsed ==
           /\ (its[i].complete \/ (broken /\ i = Len(its)))   \* cut short only by the transport failure
           /\ (its[i].what = "elem" => its[i].owner = cw[i].p)
   /\ \A p \in Procs : cur[p] = NoCall                   \* nobody is left inside a call
+  /\ sv.phase \in {"idle", "done"}                       \* a Serve that was started has returned (the driver ends the
+                                                        \* peer's byte stream when everybody is blocked)
   /\ UNCHANGED vars
 
 Silent ==
   /\ \/ \E p \in Procs : Acquire(p) \/ CloseInput(p) \/ ServeStart(p) \/ ServeAbort(p) \/ ServeDeadline(p)
      \/ \E p \in Procs : TxRefuse(p) \/ TxDone(p) \/ TxcFail(p) \/ TxBroken(p) \/ CloseDone(p) \/ Rx(p)   \* end of a call's body
+     \/ \E p \in Procs : \E c \in {"nil", "eof", "closed"} : StaleOp(p, c)     \* a dead token-writer handle used again: nothing happens
      \/ \E p \in Procs : broken /\ CloseWriteFail(p)     \* the failing write never reaches the transport
      \/ \E p \in Procs : p = sv.owner /\ cur[p].k \in {"tx", "senderr", "closeinput", "close"} /\ Ret(p) \* calls Serve issued itself
      \/ \E p \in Procs : p = sv.owner /\ ServeItem(p) /\ Head(peer) \in {"close", "streamerr", "eof"}
   /\ UNCHANGED l
 
 Inv == /\ C10_OneCloseTag /\ C10_NothingAfterClose /\ C10_ClosedIffTag /\ C10_SendersRefused
-       /\ C10_BothClosedAfterServe /\ C05_Contiguous /\ C05_NoStrayWrites
+       /\ C10_BothClosedAfterServe /\ C10_ServeReturnsForCause /\ C10_ServeRetTellsCause /\ C05_Contiguous /\ C05_NoStrayWrites /\ C05_StaleHandleDead
 
 TNext ==
   /\ l < EndOf(t0)
